@@ -44,7 +44,7 @@ FLOORS = {"quick": {"compared": 15000, "compared_ok": 5000,
           "thorough": {"compared": 400000, "compared_ok": 150000,
                        "compared_reject": 100000, "logger_compared": 20000,
                        "mapping_compared": 20000}}
-N_MODELS = {"quick": 300, "thorough": 10000}
+N_MODELS = {"quick": 800, "thorough": 10000}
 TEXTS = {"quick": 8, "thorough": 20}
 N_COMPONENT = {"quick": 800, "thorough": 40000}
 
